@@ -17,24 +17,25 @@ func (c *RuleCtx) establishedChecks(fn *ssa.Function) (checks []*ssa.If, okSucc 
 	var ev int64
 	fmt.Sscan(est.Val().String(), &ev)
 	okSucc = map[*ssa.If]int{}
+	isEst := CmpCond(token.EQL, IsCallOf(getState), IsConstInt(ev))
 	forEachInstr(fn, func(in ssa.Instruction) {
 		ifi, ok := in.(*ssa.If)
 		if !ok {
 			return
 		}
-		b, ok := ifi.Cond.(*ssa.BinOp)
-		if !ok || !IsCallOf(getState)(b.X) || !IsConstInt(ev)(b.Y) {
-			return
+		// an If one outcome of which establishes state == established, directly or through a helper's result
+		for idx := 0; idx < 2; idx++ {
+			cc, tt := normCond(ifi.Cond, idx == 0)
+			facts := append([]condFact{{cc, tt}}, helperCondFacts(cc, tt, 0, map[*ssa.BasicBlock]bool{})...)
+			for _, f := range facts {
+				if isEst(f.Cond, f.Taken) {
+					if _, dup := okSucc[ifi]; !dup {
+						okSucc[ifi] = idx
+						checks = append(checks, ifi)
+					}
+				}
+			}
 		}
-		switch b.Op {
-		case token.NEQ:
-			okSucc[ifi] = 1
-		case token.EQL:
-			okSucc[ifi] = 0
-		default:
-			return
-		}
-		checks = append(checks, ifi)
 	})
 	return
 }
